@@ -95,6 +95,14 @@ Definition nextChar (c : cursor) : res (cursor * bool) :=
 
 Definition outcome := (cursor * option (Z * str))%type.   (* None: read returned false *)
 
+(* argument.attach(arg - k, len): a BACKWARD pointer move followed by handing out len bytes.
+   The pointer arg - k must not leave the string (k <= arg - start of the string, which is what
+   [c_pos] counts) and the len bytes must end at or before the terminator (len <= k + the bytes
+   still ahead of arg); otherwise [Oob].  The bytes behind arg were read on the way here, so the
+   caller passes them ([bytes]); this function carries the bounds obligation. *)
+Definition attach_back (c : cursor) (k len : nat) (bytes : str) : res str :=
+  if ((k <=? c_pos c) && (len <=? k + length (c_arg c)))%nat then Ok bytes else Oob.
+
 (* len = length(arg); argument.attach(arg, len); arg += len; return true *)
 Definition take_rest (c : cursor) (character : Z) : res outcome :=
   len <- c_strlen (c_arg c) ;;
@@ -154,8 +162,9 @@ Definition read_long (opts : list option_row) (x y : Z) (c : cursor) : res outco
     a2 <- adv (c_arg c) argLen ;;
     l2 <- c_strlen a2 ;;
     let tot := (argLen + l2)%nat in
+    a <- attach_back c 2 (tot + 2) (x :: y :: firstn tot (c_arg c)) ;;   (* argument.attach(arg - 2, argLen + 2) *)
     c' <- adv_cur c tot ;;
-    Ok (c', Some (ch_qmark, x :: y :: firstn tot (c_arg c))) in
+    Ok (c', Some (ch_qmark, a)) in
   o <- find_long opts (c_arg c) argLen ;;
   match o with
   | Some o =>
@@ -170,7 +179,8 @@ Definition read_long (opts : list option_row) (x y : Z) (c : cursor) : res outco
         else if negb (o_optional o) then
           ' (c', ok) <- nextChar c ;;
           if ok then take_rest c' (o_char o)
-          else Ok (c', Some (ch_colon, x :: y :: firstn argLen argName))      (* missing argument *)
+          else a <- attach_back c' (argLen + 2) (argLen + 2) (x :: y :: firstn argLen argName) ;;
+               Ok (c', Some (ch_colon, a))        (* missing argument: argument.attach(argName - 2, argLen + 2) *)
         else Ok (c, Some (o_char o, []))
       else Ok (c, Some (o_char o, []))
   | None => unknown
@@ -196,7 +206,7 @@ Definition read (opts : list option_row) (c0 : cursor) : res outcome :=
       else
         c <- adv_cur c 1 ;;
         z <- peek (c_arg c) 0 ;;
-        if z =? 0 then Ok (c, Some (0, [x]))            (* argument.attach(arg - 1, 1) *)
+        if z =? 0 then a <- attach_back c 1 1 [x] ;; Ok (c, Some (0, a))   (* argument.attach(arg - 1, 1) *)
         else read_tail opts (set_inOpt c)
     else read_tail opts c
   else read_tail opts c.
